@@ -49,8 +49,8 @@ CLAIMS = {
  'C08': ("Theorems in Purr/Props/C08.lean: reader_conformant — for EVERY string, valid or not, the emitted history satisfies the follower contract (invariant: protocol path length = sum of the transducer's "
          "chain-length stack, every entry below the top >= 1; proved by induction over the reader transducer); walker_conformant — for EVERY adjacency list, including garbage, the traversal's history up to its error "
          "satisfies the contract (invariant: protocol path length = base + chain length, pop depth = number of chain entries unwound < chain length); conformant_writer_safe — a conformant history never drives the writer "
-         "into its documented panics. PARTIAL: 'joins in matched pairs on well-formed graphs' and Builder/Trace safety are not yet theorems; the pairing is checked by the online oracle on the real event stream and by the "
-         "S-graph correspondence.",
+         "into its documented panics. conformant_builder_safe — nor the builder; walker_joins_paired — on EVERY well-formed adjacency list the traversal's joins come in matched pairs, one on each atom of the bond, with reconcilable kinds: "
+         "the builder driven by the traversal's events ends with no unmatched ring number, no rejected pair, and every bond (ring bonds included) recorded on both atoms (corollary of the round-trip core rtc). The pairing is also checked by the online oracle on the real event stream.",
          "Lean 4 proof (protocol invariants by induction over reader transducer and traversal loop, for all inputs) + differential correspondence of event streams", "4.8"),
  'C07': ("Theorems in Purr/Props/C07.lean: for every value of every feature type and every bracket atom with any combination of its six fields, "
          "the reader applied to text(v) ++ rest returns norm(v) and rest, for every continuation rest whose first character cannot extend the token "
@@ -99,9 +99,10 @@ CLAIMS = {
          "over explicit Vecs (reviewed fact about the code, exercised by the soak).",
          "Lean 4 proof bounding recursion depth by nesting for all inputs + exact differential comparison with an activation-counter hook + child-process soak at 10^6 atoms", "4.19"),
  'C14': ("Determinism: the model is a pure function (stated), and no model result depends on map iteration order — pool lookup is invariant under permutation of the entries given the key-uniqueness invariant (pool_find_perm). The hash seed itself "
-         "cannot be exhibited by a theorem: every well-formed input is written in fresh threads (fresh RandomState) by the oracle and must give identical bytes. Fixed point, PARTIAL (stage 1): for every adjacency list the written text is reproduced "
-         "character for character by read-then-write (via T-wr); the full read-build-walk-write fixed point needs RTC (in progress) and is decided by the rewrite(rewrite x) = rewrite x oracle on the real code.",
-         "Lean 4 proof (order-independence of keyed lookups; text-level fixed point via T-wr) + repeated-run / rewrite-twice oracle", "4.14"),
+         "cannot be exhibited by a theorem: every well-formed input is written in fresh threads (fresh RandomState) by the oracle and must give identical bytes. FIXED POINT (graph_fixed_point, Lemmas/FixL.lean rtc_fix): for EVERY well-formed adjacency list, rings included, on which the traversal succeeds (D17 excepted), "
+         "the written text t is accepted, builds g', and traversing and writing g' reproduces t character for character (the complete second cycle read, build, walk, write); proof: lockstep of the traversals of g and of the re-read graph, which is g renumbered by visit position with arrival bonds first, pools equal up to key renumbering, parity compensations cancel. "
+         "Also for every accepted string that builds (string_fixed_point) and at the text level (read-then-write of the events, T-wr). NOT a theorem: walk (loop model) = walkRec (compared on every run). Additionally the rewrite(rewrite x) = rewrite x oracle runs on the real code.",
+         "Lean 4 proof (graph-level fixed point of the full round trip by lockstep simulation; order-independence of keyed lookups) + repeated-run / rewrite-twice oracle", "4.14"),
  'C15': ("PARTIAL (stage 1). Theorems in Purr/Props/C15.lean for EVERY string: the trace never panics on the reader's calls; the i-th atom range (a,b) satisfies a < b <= |s| and reading an atom at s.drop a succeeds and stops exactly at s.drop b "
          "(slicing the input there gives the token); the table has exactly one entry per atom event (ids past the last atom map to nothing); the k-th ring-closure token likewise. MISSING: the bond table and the identification with atom ids of the built graph "
          "(builder/trace lock-step). Until then: the complete trace dump of the real Trace (all atom ranges, every bond key in both directions, ring digits) is compared with the model on every string, and an oracle recomputes spans and bond cursors from an independent tokeniser.",
